@@ -165,7 +165,8 @@ def _replay_bkg(p, w):
 
 # ---------------------------------------------------------------- profiles
 PROF_OPS = ['profile', 'profile_error', 'data_profile', 'norm-max',
-            'norm-sum', 'unnorm']
+            'norm-sum', 'unnorm', 'data_radius', 'radius', 'area']
+PROF_UNSCALED = ('data_radius', 'radius', 'area')
 
 
 def _mk_prof(cls):
@@ -187,6 +188,10 @@ def _prof_check(cls, hist, twin=False):
                profile_error=np.array(base.profile_error))
     if cls == 'rp':
         ref['data_profile'] = np.array(base.data_profile)
+    # arrays that the normalisation must leave alone
+    fixed = dict(radius=np.array(base.radius), area=np.array(base.area))
+    if cls == 'rp':
+        fixed['data_radius'] = np.array(base.data_radius)
     obj = _mk_prof(cls)
     norm = 1.0
     with warnings.catch_warnings():
@@ -204,9 +209,13 @@ def _prof_check(cls, hist, twin=False):
                 obj.unnormalize()
                 norm = 1.0
             else:
-                if op == 'data_profile' and cls != 'rp':
+                if op in ('data_profile', 'data_radius') and cls != 'rp':
                     continue
                 v = np.array(getattr(obj, op))
+                if op in PROF_UNSCALED:
+                    if not np.allclose(v, fixed[op], rtol=1e-12, atol=0):
+                        return f'{op} after {hist[:k]} changed'
+                    continue
                 exp = ref[op] / (1.0 if twin else norm)
                 if not np.allclose(v, exp, rtol=1e-10, atol=0):
                     return (f'{op} after {hist[:k]} = {v[:3]}... expected '
